@@ -168,9 +168,28 @@ theorem setattr_ref {c : Cls} (hwf : WF c) {d : Dict} (hg : Good c d) {a sp : Na
   unfold setattr
   simp only [declMatch_eq hwf ha h, hnk, hr, ↓reduceIte]
 
-theorem delTarget_plain {c : Cls} {d : Dict} (hg : Good c d) {a sp : Name}
-    (ha : a ∈ c.names) (h : fold sp = fold a) (hp : dget d a ≠ none) : delTarget d sp = a := by
-  unfold delTarget
+theorem declMatch_some {c : Cls} {sp a : Name} (h : declMatch c sp = some a) : a ∈ c.names ∧ fold a = fold sp := by
+  unfold declMatch at h
+  have hx := List.find?_some h
+  simp only [decide_eq_true_eq] at hx
+  exact ⟨List.mem_of_find?_eq_some h, hx⟩
+
+theorem declMatch_none {c : Cls} {sp : Name} (h : declMatch c sp = none) : ∀ a ∈ c.names, fold a ≠ fold sp := by
+  intro a ha hf
+  unfold declMatch at h
+  have := List.find?_eq_none.mp h a ha
+  simp [hf] at this
+
+/-- a name that is no spelling of a declared attribute is stored under the given spelling -/
+theorem setattr_undeclared (c : Cls) (d : Dict) {sp : Name} (v : Val) (h : declMatch c sp = none) :
+    setattr c d sp v = (dset d sp v, .ok) := by
+  unfold setattr; rw [h]
+
+/-- deleting under any spelling of a non-referential attribute that holds a value removes exactly its key -/
+theorem delattr_plain {c : Cls} {d : Dict} (hg : Good c d) {a sp : Name}
+    (ha : a ∈ c.names) (h : fold sp = fold a) (hp : dget d a ≠ none) :
+    delattr d sp = (ddel d a, .ok) := by
+  unfold delattr
   have hk : a ∈ keys d := by
     apply Classical.byContradiction
     intro hn; exact hp ((dget_none_iff d a).mpr hn)
@@ -183,16 +202,25 @@ theorem delTarget_plain {c : Cls} {d : Dict} (hg : Good c d) {a sp : Name}
     have hx := List.find?_some hf
     have hm := List.mem_of_find?_eq_some hf
     simp only [decide_eq_true_eq] at hx
-    exact hg.1 kv.1 (List.mem_map.mpr ⟨kv, hm, rfl⟩) a ha (hx.trans h)
+    show (ddel d kv.1, DelRes.ok) = (ddel d a, DelRes.ok)
+    rw [hg.1 kv.1 (List.mem_map.mpr ⟨kv, hm, rfl⟩) a ha (hx.trans h)]
 
-theorem delattr_plain {c : Cls} {d : Dict} (hg : Good c d) {a sp : Name}
-    (ha : a ∈ c.names) (h : fold sp = fold a) (hp : dget d a ≠ none) :
-    delattr d sp = (ddel d a, .ok) := by
+/-- deleting under any spelling of a declared attribute that holds no value (a referential attribute never
+    does) raises AttributeError and leaves the dictionary untouched -/
+theorem delattr_absent {c : Cls} {d : Dict} (hg : Good c d) {a sp : Name}
+    (ha : a ∈ c.names) (h : fold sp = fold a) (hp : dget d a = none) :
+    delattr d sp = (d, .attrError) := by
   unfold delattr
-  rw [delTarget_plain hg ha h hp]
-  cases hd : dget d a with
-  | none => exact absurd hd hp
-  | some v => rfl
+  cases hf : d.find? (fun kv => decide (fold kv.1 = fold sp)) with
+  | none => rfl
+  | some kv =>
+    exfalso
+    have hx := List.find?_some hf
+    have hm := List.mem_of_find?_eq_some hf
+    simp only [decide_eq_true_eq] at hx
+    have hkey : kv.1 ∈ keys d := List.mem_map.mpr ⟨kv, hm, rfl⟩
+    have : kv.1 = a := hg.1 kv.1 hkey a ha (hx.trans h)
+    exact (dget_none_iff d a).mp hp (this ▸ hkey)
 
 theorem good_dset {c : Cls} (hwf : WF c) {d : Dict} (hg : Good c d) {a : Name} (v : Val)
     (ha : a ∈ c.names) (hr : a ∉ c.refs) : Good c (dset d a v) := by
@@ -232,14 +260,6 @@ def absStep (c : Cls) (m : Cells) : Op → Cells
   | .delete sp => cupd m (fold sp) none
 
 def absRun (c : Cls) (m : Cells) (h : List Op) : Cells := h.foldl (absStep c) m
-
-/-- the histories `one_cell` covers: writes address declared attributes (referential ones are rejected),
-    reads are unrestricted, a delete addresses a non-referential attribute THAT CURRENTLY HOLDS A VALUE -/
-def Valid (c : Cls) : Cells → List Op → Prop
-  | _, [] => True
-  | m, .write sp v :: h => Declared c sp ∧ Valid c (absStep c m (.write sp v)) h
-  | m, .read sp :: h => Valid c (absStep c m (.read sp)) h
-  | m, .delete sp :: h => Plain c sp ∧ m (fold sp) ≠ none ∧ Valid c (absStep c m (.delete sp)) h
 
 /-- the cells a dictionary denotes -/
 def absOf (c : Cls) (d : Dict) : Cells := fun u =>
@@ -286,51 +306,88 @@ theorem sim_ddel {c : Cls} (hwf : WF c) {d : Dict} {m : Cells} (hs : Sim c d m) 
   · have : ¬ fold b = fold a := fun hf => h (hwf.inj hb ha hf)
     simp [h, this, hs b hb]
 
-/-- one valid step: the dictionary stays good and keeps denoting the abstract cells -/
+theorem isRefSp_undeclared {c : Cls} (hwf : WF c) {sp : Name} (h : declMatch c sp = none) : isRefSp c sp = false := by
+  cases hr : isRefSp c sp with
+  | false => rfl
+  | true =>
+    exfalso
+    unfold isRefSp at hr
+    simp only [List.any_eq_true, decide_eq_true_eq] at hr
+    obtain ⟨r, hrm, hf⟩ := hr
+    exact declMatch_none h r (hwf.2 r hrm) hf
+
+/-- ANY step: the dictionary stays good and keeps denoting the abstract cells -/
 theorem step_sim {c : Cls} (hwf : WF c) {d : Dict} {m : Cells} (hg : Good c d) (hs : Sim c d m)
-    (op : Op) (hv : Valid c m [op]) : Good c (step c d op) ∧ Sim c (step c d op) (absStep c m op) := by
+    (op : Op) : Good c (step c d op) ∧ Sim c (step c d op) (absStep c m op) := by
   cases op with
   | read sp => exact ⟨hg, hs⟩
   | write sp v =>
-    obtain ⟨⟨a, ha, hf⟩, _⟩ := hv
-    by_cases hr : a ∈ c.refs
-    · have h1 : isRefSp c sp = true := (isRefSp_iff hwf ha hf).mpr hr
-      simp only [step, absStep, setattr_ref hwf hg v hr hf, h1, ↓reduceIte]
-      exact ⟨hg, hs⟩
-    · have h1 : ¬ isRefSp c sp = true := fun h => hr ((isRefSp_iff hwf ha hf).mp h)
-      simp only [step, absStep, setattr_plain hwf d v ha hr hf, h1, hf]
-      exact ⟨good_dset hwf hg v ha hr, sim_dset hwf hs v ha⟩
+    cases hdm : declMatch c sp with
+    | some a =>
+      obtain ⟨ha, hfa⟩ := declMatch_some hdm
+      have hf : fold sp = fold a := hfa.symm
+      by_cases hr : a ∈ c.refs
+      · have h1 : isRefSp c sp = true := (isRefSp_iff hwf ha hf).mpr hr
+        simp only [step, absStep, setattr_ref hwf hg v hr hf, h1, ↓reduceIte]
+        exact ⟨hg, hs⟩
+      · have h1 : ¬ isRefSp c sp = true := fun h => hr ((isRefSp_iff hwf ha hf).mp h)
+        simp only [step, absStep, setattr_plain hwf d v ha hr hf, h1, hf]
+        exact ⟨good_dset hwf hg v ha hr, sim_dset hwf hs v ha⟩
+    | none =>
+      have hnd := declMatch_none hdm
+      simp only [step, absStep, setattr_undeclared c d v hdm, isRefSp_undeclared hwf hdm]
+      refine ⟨⟨?_, ?_⟩, ?_⟩
+      · intro k hk a ha hf
+        rcases (mem_keys_dset d sp k v).mp hk with hk | rfl
+        · exact hg.1 k hk a ha hf
+        · exact absurd hf.symm (hnd a ha)
+      · intro k hk
+        rcases (mem_keys_dset d sp k v).mp hk with hk | rfl
+        · exact hg.2 k hk
+        · exact fun hr => hnd k (hwf.2 k hr) rfl
+      · intro b hb
+        have hne : b ≠ sp := fun e => hnd b hb (e ▸ rfl)
+        have hnf : ¬ fold b = fold sp := hnd b hb
+        rw [dget_dset]
+        simp [cupd, hne, hnf, hs b hb]
   | delete sp =>
-    obtain ⟨⟨a, ha, _, hf⟩, hp, _⟩ := hv
-    have hp' : dget d a ≠ none := by rw [hs a ha, ← hf]; exact hp
-    simp only [step, absStep, delattr_plain hg ha hf hp', hf]
-    exact ⟨good_ddel hg a, sim_ddel hwf hs ha⟩
-
-theorem valid_head {c : Cls} {m : Cells} {op : Op} {h : List Op} (hv : Valid c m (op :: h)) :
-    Valid c m [op] ∧ Valid c (absStep c m op) h := by
-  cases op with
-  | read sp => exact ⟨trivial, hv⟩
-  | write sp v => exact ⟨⟨hv.1, trivial⟩, hv.2⟩
-  | delete sp => exact ⟨⟨hv.1, hv.2.1, trivial⟩, hv.2.2⟩
+    simp only [step, absStep, delattr]
+    cases hf : d.find? (fun kv => decide (fold kv.1 = fold sp)) with
+    | none =>
+      refine ⟨hg, ?_⟩
+      intro b hb
+      unfold cupd
+      by_cases hfb : fold b = fold sp
+      · simp only [hfb, ↓reduceIte]
+        apply (dget_none_iff d b).mpr
+        intro hk
+        obtain ⟨kv, hm, hkv⟩ := List.mem_map.mp hk
+        have := List.find?_eq_none.mp hf kv hm
+        simp [hkv, hfb] at this
+      · simp [hfb, hs b hb]
+    | some kv =>
+      have hx := List.find?_some hf
+      have hm := List.mem_of_find?_eq_some hf
+      simp only [decide_eq_true_eq] at hx
+      have hkey : kv.1 ∈ keys d := List.mem_map.mpr ⟨kv, hm, rfl⟩
+      refine ⟨good_ddel hg kv.1, ?_⟩
+      intro b hb
+      rw [dget_ddel]
+      unfold cupd
+      by_cases hbk : b = kv.1
+      · subst hbk; simp [hx]
+      · have hnf : ¬ fold b = fold sp := by
+          intro hfb
+          exact hbk (hg.1 kv.1 hkey b hb (hx.trans hfb.symm)).symm
+        simp [hbk, hnf, hs b hb]
 
 theorem run_sim {c : Cls} (hwf : WF c) : ∀ (h : List Op) (d : Dict) (m : Cells), Good c d → Sim c d m →
-    Valid c m h → Good c (run c d h) ∧ Sim c (run c d h) (absRun c m h)
-  | [], _, _, hg, hs, _ => ⟨hg, hs⟩
-  | op :: h, d, m, hg, hs, hv => by
-    obtain ⟨h1, h2⟩ := valid_head hv
-    obtain ⟨hg', hs'⟩ := step_sim hwf hg hs op h1
-    exact run_sim hwf h (step c d op) (absStep c m op) hg' hs' h2
+    Good c (run c d h) ∧ Sim c (run c d h) (absRun c m h)
+  | [], _, _, hg, hs => ⟨hg, hs⟩
+  | op :: h, d, m, hg, hs => by
+    obtain ⟨hg', hs'⟩ := step_sim hwf hg hs op
+    exact run_sim hwf h (step c d op) (absStep c m op) hg' hs'
 
-/-- every prefix of a covered history is a covered history (so the conclusions hold at every moment) -/
-theorem valid_append {c : Cls} : ∀ (h1 h2 : List Op) (m : Cells), Valid c m (h1 ++ h2) → Valid c m h1
-  | [], _, _, _ => trivial
-  | op :: h1, h2, m, hv => by
-    obtain ⟨ha, hb⟩ := valid_head (by simpa using hv : Valid c m (op :: (h1 ++ h2)))
-    have ih := valid_append h1 h2 _ hb
-    cases op with
-    | read sp => exact ih
-    | write sp v => exact ⟨ha.1, ih⟩
-    | delete sp => exact ⟨ha.1, ha.2.1, ih⟩
 
 /-- the last event on the case-folded name `u`: a write (to a non-referential spelling) sets the value,
     a delete empties the cell; `cur` is what the cell held before the history -/
@@ -365,26 +422,55 @@ theorem absRun_eq_lastValue (c : Cls) (u : Name) : ∀ (h : List Op) (m : Cells)
 
 /-! ### constructor loops = a history of writes -/
 
-theorem assignAll_plain {c : Cls} (hwf : WF c) : ∀ (items : List (Name × Val)) (acc : NewAcc),
-    (∀ it ∈ items, Plain c it.1) →
-    assignAll c acc items = (⟨run c acc.dict (items.map fun it => Op.write it.1 it.2), acc.refd⟩, .ok)
-  | [], _, _ => rfl
-  | (n, v) :: r, acc, hp => by
-    obtain ⟨a, ha, hr, hf⟩ := hp (n, v) (by simp)
-    have hn : n ∉ c.refs := by
-      intro hs
-      have := hwf.inj (hwf.2 n hs) ha hf
-      exact hr (this ▸ hs)
-    have ih := assignAll_plain hwf r ⟨dset acc.dict a v, acc.refd⟩ (fun it hi => hp it (by simp [hi]))
-    simp only [assignAll, assignArg, hn, ↓reduceIte, setattr_plain hwf acc.dict v ha hr hf, ih,
-      List.map_cons, run, List.foldl_cons, step]
+/-- an item name as the constructor loops see it: a declared name in its declared spelling, or no spelling of
+    any declared attribute (keyword names are resolved first, `resolveKw`) -/
+def Resolved (c : Cls) (n : Name) : Prop := n ∈ c.names ∨ declMatch c n = none
 
-theorem valid_writes {c : Cls} : ∀ (items : List (Name × Val)) (m : Cells), (∀ it ∈ items, Plain c it.1) →
-    Valid c m (items.map fun it => Op.write it.1 it.2)
-  | [], _, _ => trivial
-  | (n, v) :: r, m, hp => by
-    obtain ⟨a, ha, _, hf⟩ := hp (n, v) (by simp)
-    exact ⟨⟨a, ha, hf⟩, valid_writes r _ (fun it hi => hp it (by simp [hi]))⟩
+theorem resolved_resolveKw (c : Cls) (kw : Name × Val) : Resolved c (resolveKw c kw).1 := by
+  unfold resolveKw
+  cases h : declMatch c kw.1 with
+  | some a => exact Or.inl (declMatch_some h).1
+  | none => exact Or.inr (by simpa using h)
+
+theorem fold_resolveKw (c : Cls) (kw : Name × Val) : fold (resolveKw c kw).1 = fold kw.1 := by
+  unfold resolveKw
+  cases h : declMatch c kw.1 with
+  | some a => exact (declMatch_some h).2
+  | none => rfl
+
+theorem resolved_not_refSp {c : Cls} (hwf : WF c) {n : Name} (hr : Resolved c n) (hn : n ∉ c.refs) :
+    isRefSp c n = false := by
+  rcases hr with h | h
+  · cases hi : isRefSp c n with
+    | false => rfl
+    | true => exact absurd ((isRefSp_iff hwf h rfl).mp hi) hn
+  · exact isRefSp_undeclared hwf h
+
+/-- the writes an item list amounts to: items whose name is (exactly) referential go to the local dict -/
+def writesOf (c : Cls) (items : List (Name × Val)) : List Op :=
+  (items.filter fun it => !(decide (it.1 ∈ c.refs))).map fun it => Op.write it.1 it.2
+
+/-- the assignment loops never raise on resolved names; the dictionary is the history of the writes to the
+    names that are not referential -/
+theorem assignAll_resolved {c : Cls} (hwf : WF c) : ∀ (items : List (Name × Val)) (acc : NewAcc),
+    (∀ it ∈ items, Resolved c it.1) →
+    ∃ rd, assignAll c acc items = (⟨run c acc.dict (writesOf c items), rd⟩, .ok)
+  | [], acc, _ => ⟨acc.refd, rfl⟩
+  | (n, v) :: r, acc, hp => by
+    by_cases hn : n ∈ c.refs
+    · obtain ⟨rd, ih⟩ := assignAll_resolved hwf r ⟨acc.dict, dset acc.refd n v⟩ (fun it hi => hp it (by simp [hi]))
+      refine ⟨rd, ?_⟩
+      simp only [assignAll, assignArg, hn, ↓reduceIte, ih, writesOf, List.filter_cons, decide_true, Bool.not_true,
+        Bool.false_eq_true]
+    · have hset : setattr c acc.dict n v = (dset acc.dict n v, .ok) := by
+        rcases hp (n, v) (by simp) with h | h
+        · exact setattr_plain hwf acc.dict v h hn rfl
+        · exact setattr_undeclared c acc.dict v h
+      obtain ⟨rd, ih⟩ := assignAll_resolved hwf r ⟨dset acc.dict n v, acc.refd⟩ (fun it hi => hp it (by simp [hi]))
+      refine ⟨rd, ?_⟩
+      simp only [assignAll, assignArg, hn, ↓reduceIte, hset, ih, writesOf,
+        List.filter_cons, decide_false, Bool.not_false, List.map_cons, run, List.foldl_cons, step]
+
 
 /-! ### class table -/
 
